@@ -106,7 +106,7 @@ func (s *receiveLog) missingSeqNumbers(skipLastN uint16, missingPacketSeqNums []
 	defer s.m.RUnlock()
 
 	until := s.end - skipLastN
-	if until-s.lastConsecutive >= rtpbuffer.Uint16SizeHalf {
+	if diff := until - s.lastConsecutive; diff >= rtpbuffer.Uint16SizeHalf && diff != s.size {
 		// until < s.lastConsecutive (counting for rollover)
 		return nil
 	}
